@@ -177,4 +177,6 @@ class Identifier(Node):
         """
         name = ',$$'.join(''.join(p).strip() for p in self.parsed)
         name = re.sub('\?(.)\?', '%(ws)s\\1%(ws)s', name) % fills
-        return name.replace('$$', fills['nl']).replace('  ', ' ')
+        name = name.replace('$$', fills['nl'])
+        # collapse double blanks, but leave attribute selectors ([...]) as written
+        return re.sub(r'(\[[^\]]*\])|  ', lambda m: m.group(1) or ' ', name)
